@@ -220,6 +220,32 @@ def run(tier, rep):
                 f = g
     if f and not rep.violations:
         self_test(rep, f, False, False, "plain", sc)
+    # storage-growth boundaries: state consistency in every tier, memory safety under ASan in the thorough tier
+    go = os.path.join(sc, "growth.json")
+    r = common.run_worker(os.path.join(HERE, "w_c14.py"), ["growth", go], timeout=1800)
+    if r.returncode != 0:
+        if r.returncode < 0:
+            rep.violation("crash:growth", "real code crashed (signal %d) at a storage-growth boundary" % -r.returncode, {"stderr": r.stderr[-1500:]})
+        else:
+            raise MachineryError("growth worker failed: %s" % r.stderr[-2000:])
+    else:
+        g = json.load(open(go))
+        rep.add(evaluations=g["ops"])
+        for pb in g["problems"]:
+            rep.violation("growth:%s:%d" % ("hybrid" if pb["hybrid"] else "plain", pb["boundary"]), "particle array wrong after removals / additions around N == N_allocated == %d: %s" % (pb["boundary"], pb), pb)
+    if not quick:
+        asan_rt0 = os.popen("clang -print-file-name=libclang_rt.asan-x86_64.so").read().strip()
+        common.build("asan")
+        r = common.run_worker(os.path.join(HERE, "w_c14.py"), ["growth", go], variant="asan", env={"LD_PRELOAD": asan_rt0, "ASAN_OPTIONS": "detect_leaks=0"}, timeout=1800)
+        if r.returncode != 0 and ("AddressSanitizer" in r.stderr or "runtime error" in r.stderr):
+            m = re.search(r"(ERROR: AddressSanitizer[^\n]*)", r.stderr)
+            w = re.search(r"#0 0x[0-9a-f]+ in (\w+) ([^\s]+)", r.stderr)
+            rep.violation("asan:growth", "sanitizer report at a storage-growth boundary (N == N_allocated): %s in %s" % (m.group(1)[:120] if m else "?", (w.group(1) + " " + w.group(2)) if w else "?"),
+                          {"stderr": r.stderr[-3000:]})
+        elif r.returncode != 0:
+            rep.cov["asan_growth"] = "not run: %s" % r.stderr[-200:]
+        else:
+            rep.cov["asan_growth"] = "growth boundaries 128 / 256, plain and hybrid, clean under ASan+UBSan"
     # ASan/UBSan execution of the random histories (memory-safety clause), thorough only
     if not quick:
         cfg = {"TreeMode": False, "Hybrid": False, "MaxN": 300, "NHashes": 7}
